@@ -15,22 +15,28 @@ type brokerProfile struct {
 	wConnect, wSub, wUnsub, wPub, wRel, wAck, wPing, wDisc      int
 	wClose, wSrvPub, wSrvSub, wSrvUnsub, wBadFirst, wBadConnect int
 	retainPct, willPct, cleanPct                                int
+	// overlap scenarios (third round of seeded changes): one episode in unsubRacePer / hsRacePer has an
+	// `unsubrace` / `hsrace` sequence (0: never); repubPct percent of the episodes have republishing
+	// in-process callbacks (`srvsubrepub`)
+	unsubRacePer, hsRacePer, repubPct int
 }
 
 var brokerProfiles = map[string]brokerProfile{
-	"broker":       {"broker", 10, 14, 6, 34, 8, 5, 2, 4, 5, 4, 3, 1, 2, 2, 25, 40, 60},
-	"broker-sub":   {"broker-sub", 8, 30, 14, 26, 4, 3, 1, 3, 3, 3, 3, 2, 0, 0, 20, 20, 70},
-	"broker-ret":   {"broker-ret", 8, 22, 4, 36, 6, 3, 1, 3, 3, 6, 6, 1, 0, 1, 65, 30, 70},
-	"broker-will":  {"broker-will", 18, 12, 3, 16, 3, 2, 1, 14, 18, 2, 2, 1, 2, 4, 25, 85, 45},
-	"broker-sess":  {"broker-sess", 20, 18, 8, 18, 3, 2, 1, 12, 12, 2, 1, 1, 1, 1, 15, 25, 35},
-	"broker-first": {"broker-first", 22, 6, 2, 10, 2, 1, 1, 4, 4, 1, 1, 0, 22, 24, 20, 40, 50},
-	"broker-qos":   {"broker-qos", 8, 12, 3, 40, 18, 8, 2, 2, 3, 3, 1, 0, 0, 1, 15, 20, 70},
+	"broker":       {"broker", 10, 14, 6, 34, 8, 5, 2, 4, 5, 4, 3, 1, 2, 2, 25, 40, 60, 40, 0, 30},
+	"broker-sub":   {"broker-sub", 8, 30, 14, 26, 4, 3, 1, 3, 3, 3, 3, 2, 0, 0, 20, 20, 70, 30, 0, 0},
+	"broker-ret":   {"broker-ret", 8, 22, 4, 36, 6, 3, 1, 3, 3, 6, 6, 1, 0, 1, 65, 30, 70, 0, 0, 0},
+	"broker-will":  {"broker-will", 18, 12, 3, 16, 3, 2, 1, 14, 18, 2, 2, 1, 2, 4, 25, 85, 45, 0, 0, 0},
+	"broker-sess":  {"broker-sess", 20, 18, 8, 18, 3, 2, 1, 12, 12, 2, 1, 1, 1, 1, 15, 25, 35, 0, 12, 0},
+	"broker-first": {"broker-first", 22, 6, 2, 10, 2, 1, 1, 4, 4, 1, 1, 0, 22, 24, 20, 40, 50, 0, 8, 0},
+	"broker-qos":   {"broker-qos", 8, 12, 3, 40, 18, 8, 2, 2, 3, 3, 1, 0, 0, 1, 15, 20, 70, 0, 0, 0},
 }
 
 func init() {
 	for name := range brokerProfiles {
 		n := name
-		gens[n] = func(seed int64, cnt int, tier string, w *bufio.Writer) { genBroker(brokerProfiles[n], seed, cnt, tier, w) }
+		gens[n] = func(seed int64, cnt int, tier string, w *bufio.Writer) {
+			genBroker(brokerProfiles[n], seed, cnt, tier, w)
+		}
 	}
 }
 
@@ -54,9 +60,13 @@ type brokerGen struct {
 	// known-finding classes confined to dedicated episodes (allowDollar: no finding any more since
 	// B4 was repaired; '$' levels and '$' topics stay in episodes of their own)
 	allowEmpty, allowDollar, allowOverlap, allowBadFilter bool
-	thorough bool
-	lastConnect map[string]string
-	out2 map[int][]int // subscriber conn -> QoS 2 ids the broker sent it (for PUBREC/PUBCOMP answers)
+	thorough                                              bool
+	lastConnect                                           map[string]string
+	out2                                                  map[int][]int // subscriber conn -> QoS 2 ids the broker sent it (for PUBREC/PUBCOMP answers)
+	// republishing callbacks of the episode: the topics they republish to, the filters they may
+	// subscribe (none of which matches a target: no cycles), and the next callback identity
+	repubTargets, repubFilters []string
+	repubNext                  int
 }
 
 func (g *brokerGen) emit(format string, a ...interface{}) {
@@ -256,6 +266,222 @@ func (g *brokerGen) remove(c *bConn) {
 	}
 }
 
+// filterMatches: the MQTT 3.1.1 matching rule on plain vocabulary entries (no '$' topics, no empty levels)
+func filterMatches(filter, topic string) bool {
+	fl, tl := strings.Split(filter, "/"), strings.Split(topic, "/")
+	for i, f := range fl {
+		if f == "#" {
+			return true
+		}
+		if i >= len(tl) {
+			return false
+		}
+		if f != "+" && f != tl[i] {
+			return false
+		}
+	}
+	return len(fl) == len(tl)
+}
+
+// unsubRaceSeq: connection a subscribes a long list of deep filters (600-1000 filters of 70-100
+// levels, all below a first level "u" that nothing else in the vocabulary uses), then sends ONE
+// UNSUBSCRIBE for all of them, and connection p publishes on the topic of the LAST filter the
+// moment a has the UNSUBACK in hand (`unsubrace`).  Removing such a list takes the broker 5-10 ms
+// (the cost is per level; what the Lean streams pay grows with the square of the NUMBER of filters
+// only), which is what a broker that acknowledges first would leave as a window - wide against the
+// harness's reaction time of 0.1-0.5 ms, also on a loaded machine.  The packets stay below 200 KB:
+// well inside the 256 KiB ring and out of the range of finding F3.  Returns the number of op lines.
+func (g *brokerGen) unsubRaceSeq(a, p *bConn) int {
+	r := g.r
+	n := 600 + r.Intn(400)
+	depth := 70 + r.Intn(31)
+	for n*(12+2*depth) > 200000 {
+		n -= 50
+	}
+	var tails []string
+	for k := 0; k < 3; k++ {
+		var sb strings.Builder
+		for d := 0; d < depth; d++ {
+			sb.WriteString("/" + pick(r, []string{"a", "b", "c", "l", "x"}))
+		}
+		tails = append(tails, sb.String())
+	}
+	var subs, fs []string
+	var names []string
+	for i := 0; i < n; i++ {
+		tail := tails[i%3]
+		nm := fmt.Sprintf("u/k%04d%s", i, tail)
+		f := nm
+		if r.Intn(50) == 0 {
+			f = fmt.Sprintf("u/k%04d/+%s", i, tail[2:]) // the first level of the tail as a wildcard
+		}
+		names = append(names, nm)
+		fs = append(fs, hexStr(f))
+		subs = append(subs, fmt.Sprintf("%s:%d", hexStr(f), r.Intn(3)))
+	}
+	lines := 2
+	g.pid++
+	g.emit("pkt %d subscribe %d %s", a.id, 1+g.pid%65535, strings.Join(subs, ","))
+	if r.Intn(2) == 0 {
+		// the subscriptions are there: a gets this one
+		g.emit("pkt %d publish 0 0 0 %s 0 %s", p.id, hexStr(names[r.Intn(n)]), g.smallPayload())
+		lines++
+	}
+	g.pid++
+	g.emit("unsubrace %d %d %d %s %s %s", a.id, p.id, 1+g.pid%65535, strings.Join(fs, ","), hexStr(names[n-1]), g.smallPayload())
+	if r.Intn(2) == 0 {
+		g.emit("pkt %d publish 0 0 0 %s 0 %s", p.id, hexStr(names[r.Intn(n)]), g.smallPayload())
+		lines++
+	}
+	return lines
+}
+
+// freeCid: a client identifier "c<k>" (two characters, like every identifier of the vocabulary)
+// that no live connection uses and that is not in `not`
+func (g *brokerGen) freeCid(not ...string) string {
+	for {
+		cid := fmt.Sprintf("c%d", 1+g.r.Intn(9))
+		ok := true
+		for _, c := range g.live {
+			if c.cid == cid {
+				ok = false
+			}
+		}
+		for _, x := range not {
+			if x == cid {
+				ok = false
+			}
+		}
+		if ok {
+			return cid
+		}
+	}
+}
+
+// hsRaceSeq: two overlapping handshakes (`hsrace`) and what makes a mix-up between them visible.
+// A persistent session is stored under identifier cV (CleanSession 0, one subscription), its
+// connection ends.  Connection a (identifier cA, clean, user name "slow": held inside Authenticate)
+// and connection b overlap; b's first packet is mostly a CONNECT that presents cV and is refused
+// (user name "deny": CONNACK 4), sometimes a malformed one, sometimes an acceptable one under an
+// identifier of its own.  Then a subscribes, publishes, disconnects, and the client of cV comes
+// back with CleanSession 0: it must find its session (SessionPresent 1) and its subscription must
+// still deliver - whatever b sent had no effect on what a was connected as.  All identifiers have
+// the same length, so the CONNECT packets have the same layout.  Returns the number of op lines.
+func (g *brokerGen) hsRaceSeq() int {
+	r := g.r
+	cV := g.freeCid()
+	cA := g.freeCid(cV)
+	f := pick(r, g.filts)
+	var topic string
+	for _, nm := range g.names {
+		if filterMatches(f, nm) {
+			topic = nm
+		}
+	}
+	lines := 0
+	connect := func(id int, clean int, cid string) {
+		g.emit("first %d connect %s 4 0 %d ~ 0 0 %s ~ ~ 30 1", id, hexStr("MQTT"), clean, hexStr(cid))
+		lines++
+	}
+	g.next++
+	v := g.next
+	connect(v, 0, cV)
+	g.pid++
+	g.emit("pkt %d subscribe %d %s:%d", v, 1+g.pid%65535, hexStr(f), 1+r.Intn(2))
+	g.emit("pkt %d %s", v, pick(r, []string{"disconnect", "disconnect", "pingreq"}))
+	g.emit("close %d", v)
+	lines += 3
+	g.next += 2
+	a, b := g.next-1, g.next
+	var first []byte
+	bLive := ""
+	deny, slow := []byte("deny"), hexStr("slow")
+	if r.Intn(4) == 0 {
+		slow = hexStr(fmt.Sprintf("slow%d", r.Intn(10)))
+	}
+	cb := wConnect{protoName: []byte("MQTT"), version: 4, clean: r.Intn(2) == 0, clientID: []byte(cV), user: &deny, keepAlive: 30}
+	switch k := r.Intn(10); {
+	case k < 6: // refused: bad user name
+		if r.Intn(3) == 0 {
+			cb.will = &wWill{topic: []byte(pick(r, g.names)), payload: []byte("forged"), qos: r.Intn(3)}
+		}
+	case k < 8: // refused or dropped by the decoder
+		cb.user = nil
+		switch r.Intn(3) {
+		case 0:
+			cb.version = 5
+		case 1:
+			cb.reserved = true
+		default:
+			cb.protoName = []byte("MQTX")
+		}
+	default: // accepted, under an identifier of its own
+		bLive = g.freeCid(cV, cA)
+		cb.user, cb.clientID, cb.clean = nil, []byte(bLive), true
+	}
+	first = cb.encode()
+	g.emit("hsrace %d connect %s 4 0 1 ~ 0 0 %s %s ~ 30 1 ; %d %s", a, hexStr("MQTT"), hexStr(cA), slow, b, hexOf(first))
+	lines++
+	ca := &bConn{id: a, cid: cA}
+	g.live = append(g.live, ca)
+	if bLive != "" {
+		g.live = append(g.live, &bConn{id: b, cid: bLive})
+	}
+	g.pid++
+	g.emit("pkt %d subscribe %d %s:%d", a, 1+g.pid%65535, hexStr(pick(r, g.filts)), r.Intn(3))
+	g.emit("pkt %d publish 0 0 0 %s 0 %s", a, hexStr(pick(r, g.names)), g.smallPayload())
+	g.emit("pkt %d disconnect", a)
+	g.remove(ca)
+	lines += 3
+	g.next++
+	v2 := g.next
+	connect(v2, 0, cV)
+	cv := &bConn{id: v2, cid: cV, subs: []string{f}}
+	g.live = append(g.live, cv)
+	if topic != "" {
+		g.emit("pkt %d publish 0 %d 0 %s %d %s", pick(r, g.live).id, 1, hexStr(topic), 1+r.Intn(12), g.smallPayload())
+		lines++
+	}
+	return lines
+}
+
+func (g *brokerGen) smallPayload() string {
+	b := make([]byte, 1+g.r.Intn(5))
+	g.r.Read(b)
+	return hexOf(b)
+}
+
+// repubSetup chooses the episode's republishing targets (ordinary topic names, so that the
+// ordinary subscribers get the republished messages) and the filters a republishing callback may
+// subscribe: those of the vocabulary that match none of the targets.
+func (g *brokerGen) repubSetup() {
+	g.repubTargets, g.repubFilters, g.repubNext = nil, nil, 1101
+	for k := 1 + g.r.Intn(2); k > 0; k-- {
+		g.repubTargets = append(g.repubTargets, pick(g.r, g.names))
+	}
+	for _, f := range g.filts {
+		ok := true
+		for _, t := range g.repubTargets {
+			if filterMatches(f, t) {
+				ok = false
+			}
+		}
+		if ok {
+			g.repubFilters = append(g.repubFilters, f)
+		}
+	}
+}
+
+// repubSub: a new republishing callback (each holds ONE filter: how often a callback with
+// several matching subscriptions is called is not fixed by the properties)
+func (g *brokerGen) repubSub() {
+	cb := g.repubNext
+	g.repubNext++
+	f := pick(g.r, g.repubFilters)
+	g.emit("srvsubrepub %d %s %d %s", cb, hexStr(f), g.r.Intn(3), hexStr(pick(g.r, g.repubTargets)))
+	g.cbsubs = append(g.cbsubs, [2]string{fmt.Sprint(cb), f})
+}
+
 func genBroker(p brokerProfile, seed int64, n int, tier string, w *bufio.Writer) {
 	r := rand.New(rand.NewSource(seed))
 	g := &brokerGen{r: r, w: w, p: p, thorough: tier == "thorough"}
@@ -277,10 +503,41 @@ func genBroker(p brokerProfile, seed int64, n int, tier string, w *bufio.Writer)
 			g.filts = []string{"a/b", "a/+", "a/#", "#", "+/+", "a/+/c", "sport/#", "sport/tennis/+", "b/c", "+/b/#", "x", "sport"}
 		}
 		eplen := 15 + r.Intn(60)
+		g.repubTargets, g.repubFilters = nil, nil
+		if p.repubPct > 0 && r.Intn(100) < p.repubPct {
+			g.repubSetup()
+		}
+		unsubRaceAt := -1
+		if p.unsubRacePer > 0 && r.Intn(p.unsubRacePer) == 0 {
+			unsubRaceAt = r.Intn(eplen)
+		}
+		hsRaceAt := -1
+		if p.hsRacePer > 0 && r.Intn(p.hsRacePer) == 0 {
+			hsRaceAt = r.Intn(eplen)
+		}
 		g.connect()
 		done++
 		for i := 0; i < eplen && done < n; i++ {
 			done++
+			if hsRaceAt >= 0 && i >= hsRaceAt && len(g.live) <= 4 && !g.allowOverlap {
+				hsRaceAt = -1
+				done += g.hsRaceSeq() - 1
+				continue
+			}
+			if unsubRaceAt >= 0 && i >= unsubRaceAt && len(g.live) >= 2 {
+				unsubRaceAt = -1
+				a := pick(r, g.live)
+				pb := pick(r, g.live)
+				for pb == a {
+					pb = pick(r, g.live)
+				}
+				done += g.unsubRaceSeq(a, pb) - 1
+				continue
+			}
+			if len(g.repubFilters) > 0 && r.Intn(16) == 0 {
+				g.repubSub()
+				continue
+			}
 			k := r.Intn(total)
 			var c *bConn
 			if len(g.live) > 0 {
